@@ -1,3 +1,5 @@
 import Cql.Audit
 import Cql.Props.C03
+import Cql.Props.C03Vint
 #audit_namespace Cql.Props.C03
+#audit_namespace Cql.Props.C03Vint
